@@ -209,7 +209,7 @@ def hypotheses_suite(res, cases, per=250):
         return
     shards = ["Definition RE := %s.\nDefinition DD : decls := %s.\n%s\nDefinition cases : list (nat * pyval) := [\n%s\n].\n"
               "Goal True. idtac \"HYP\". exact I. Qed.\nEval vm_compute in (map hyp cases).\n"
-              % (table, world.decls_term(), HYP_PRELUDE, ";\n".join(lines[s:s + per])) for s in range(0, len(lines), per)]
+              % (table, world.decls_term_for(lines[s:s + per]), HYP_PRELUDE, ";\n".join(lines[s:s + per])) for s in range(0, len(lines), per)]
     hist = {}
     for rc, out in core.run_sharded("c06hyp", ["Parse", "Verdict", "FieldSpec", "FieldProofs"], shards):
         vals = core.parse_nat_list(out, "HYP") if rc == 0 else None
